@@ -57,7 +57,7 @@ fn show_ip(a: &SocketAddr) -> String {
 }
 
 /// Convert to storage, pass through the "kernel", convert back.
-fn roundtrip<A: SocketAddress>(addr: A, klen: Option<u32>, show: impl Fn(&A) -> String) -> (String, String, String)
+fn roundtrip<A: SocketAddress>(addr: A, klen: Option<u32>, show: impl Fn(&A) -> String) -> (String, String, String, String)
 where
     A::Storage: Sized,
 {
@@ -78,12 +78,27 @@ where
         let all = std::slice::from_raw_parts(ptr.cast::<u8>(), size);
         std::ptr::copy_nonoverlapping(all.as_ptr(), mptr.cast::<u8>(), klen as usize);
     }
+    // What the kernel is shown: the first `ptrlen` bytes at `as_ptr` — read back with exactly that
+    // length they must be the address itself.
+    let sees = {
+        let mut out2: MaybeUninit<A::Storage> = MaybeUninit::uninit();
+        let (mptr2, mutlen2) = unsafe { A::as_mut_ptr(&mut out2) };
+        let n = ptrlen.min(mutlen2);
+        unsafe {
+            std::ptr::write_bytes(mptr2.cast::<u8>(), 0x55, mutlen2 as usize);
+            std::ptr::copy_nonoverlapping(ptr.cast::<u8>(), mptr2.cast::<u8>(), n as usize);
+        }
+        match crate::util::catch(move || unsafe { A::init(out2, n) }) {
+            Ok(b) => show(&b),
+            Err(_) => "panic".to_string(),
+        }
+    };
     let back = match crate::util::catch(move || unsafe { A::init(out, klen) }) {
         Ok(b) => b,
         Err(msg) => {
             let all = unsafe { std::slice::from_raw_parts(ptr.cast::<u8>(), size) };
             let back = format!("panic({})", msg.lines().next().unwrap_or("").chars().take(80).collect::<String>().replace(' ', "_"));
-            return (format!("storage={} ptrlen={} mutlen={} back={}", hexs(all), ptrlen, mutlen, back), orig, back);
+            return (format!("storage={} ptrlen={} mutlen={} back={}", hexs(all), ptrlen, mutlen, back), orig, back, sees);
         }
     };
     // Print the whole address structure (not only ptrlen bytes): padding is part of the contract.
@@ -94,6 +109,7 @@ where
         format!("storage={} ptrlen={} mutlen={} back={}", hexs(all), ptrlen, mutlen, back),
         orig,
         back,
+        sees,
     )
 }
 
@@ -182,31 +198,31 @@ impl Case for AddrCase {
 
     fn exec(&mut self, op: &str) -> Vec<String> {
         let t: Vec<&str> = op.split(' ').collect();
-        let r = (|| -> Option<(String, String, String, bool)> {
+        let r = (|| -> Option<(String, String, String, bool, String)> {
             match t.as_slice() {
                 ["addr", k @ ("v4" | "any4"), ip, port] => {
                     let ip = unhex(ip)?;
                     let port: u16 = port.parse().ok()?;
                     let ip: [u8; 4] = ip.try_into().ok()?;
                     let a = SocketAddrV4::new(Ipv4Addr::from(ip), port);
-                    let (l, o, b) = if *k == "v4" {
+                    let (l, o, b, sees) = if *k == "v4" {
                         roundtrip(a, None, |a| show_ip(&SocketAddr::V4(*a)))
                     } else {
                         roundtrip(SocketAddr::V4(a), None, show_ip)
                     };
-                    Some((l, o, b, true))
+                    Some((l, o, b, true, sees))
                 }
                 ["addr", k @ ("v6" | "any6"), ip, port, flow, scope] => {
                     let ip = unhex(ip)?;
                     let port: u16 = port.parse().ok()?;
                     let ip: [u8; 16] = ip.try_into().ok()?;
                     let a = SocketAddrV6::new(Ipv6Addr::from(ip), port, flow.parse().ok()?, scope.parse().ok()?);
-                    let (l, o, b) = if *k == "v6" {
+                    let (l, o, b, sees) = if *k == "v6" {
                         roundtrip(a, None, |a| show_ip(&SocketAddr::V6(*a)))
                     } else {
                         roundtrip(SocketAddr::V6(a), None, show_ip)
                     };
-                    Some((l, o, b, true))
+                    Some((l, o, b, true, sees))
                 }
                 ["addr", "unix", kind, name, klen] => {
                     let name = unhex(name)?;
@@ -224,14 +240,22 @@ impl Case for AddrCase {
                         "abstract" => klen == 3 + n,
                         _ => klen == 2 || klen == 0,
                     };
-                    let (l, o, b) = roundtrip(a, Some(klen), show_unix);
-                    Some((l, o, b, legit))
+                    let (l, o, b, sees) = roundtrip(a, Some(klen), show_unix);
+                    Some((l, o, b, legit, sees))
                 }
                 _ => None,
             }
         })();
         match r {
-            Some((line, orig, back, legit)) => {
+            Some((line, orig, back, legit, sees)) => {
+                if sees != orig {
+                    let kind = orig.split(':').next().unwrap_or("?").to_string();
+                    self.oracle.push((
+                        "C16".into(),
+                        format!("C16/kernel-sees/{kind}"),
+                        format!("the pointer/length pair passed to the kernel for {orig} describes {sees} ({op})"),
+                    ));
+                }
                 if legit && orig != back {
                     let kind = orig.split(':').next().unwrap_or("?").to_string();
                     self.oracle.push((
